@@ -301,6 +301,71 @@ def recover (e : Either L A) (f : Unit → GoM A) : GoM (Either L A) :=
 
 end EitM
 
+-- ------------------------------------------------------------------------------------------ transformers
+/-! `try.OptionT[A] = fp.Try[fp.Option[A]]`, `try.SeqT[A] = fp.Try[fp.Seq[A]]` (try_optiont.go, try_seqt.go, generated by
+    monad_gen from `GenerateMonadTransformer`): every function is written with the outer `try.Map`/`try.FlatMap`
+    and the inner monad's `FlatMap`/`Pure`, plus the user-supplied `Sequence`. -/
+namespace TryT
+open MonadFamily
+variable {A B R : Type}
+
+
+def pureOptionT (a : A) : GoM (Try (Option A)) := (pure (Try.success (some a)) : GoM (Try (Option A)))
+def liftOptionT (a : GoM (Try A)) : GoM (Try (Option A)) := map TryM.ops a (fun x => pure (some x))
+
+/-- `MapOptionT(t, f) = Map(t, ma => option.FlatMap(ma, a => option.Pure(f(a))))` -/
+def mapOptionT (t : GoM (Try (Option A))) (f : A → GoM B) : GoM (Try (Option B)) :=
+  map TryM.ops t (fun ma => OptM.flatMap ma (fun a => do let b ← f a; pure (some b)))
+
+def subFlatMapOptionT (t : GoM (Try (Option A))) (f : A → GoM (Option B)) : GoM (Try (Option B)) :=
+  map TryM.ops t (fun ma => OptM.flatMap ma f)
+
+/-- the `Sequence` given in the directive: `Option[Try[B]] → Try[Option[B]]` -/
+def sequenceOption (v : Option (Try B)) : GoM (Try (Option B)) :=
+  match v with
+  | some tb => map TryM.ops (pure tb) (fun b => pure (some b))
+  | none => (pure (Try.success none) : GoM (Try (Option B)))
+
+/-- `TraverseOptionT(t, f) = FlatMap(MapOptionT(t, f), sequencef)`; `f` returns a Try as a plain value -/
+def traverseOptionT (t : GoM (Try (Option A))) (f : A → GoM (Try B)) : GoM (Try (Option B)) :=
+  TryM.ops.flatMap (mapOptionT t f) sequenceOption
+
+def flatMapOptionT (t : GoM (Try (Option A))) (f : A → GoM (Try (Option B))) : GoM (Try (Option B)) :=
+  map TryM.ops (traverseOptionT t f) (fun v => OptM.flatMap v (fun x => pure x))
+
+/-- all `Transform` entries: `XOptionT(t, args) = Map(t, inside => X(inside, args))` -/
+def transformT {I O : Type} (t : GoM (Try I)) (g : I → GoM O) : GoM (Try O) := map TryM.ops t g
+
+def pureSeqT (a : A) : GoM (Try (List A)) := (pure (Try.success [a]) : GoM (Try (List A)))
+def liftSeqT (a : GoM (Try A)) : GoM (Try (List A)) := map TryM.ops a (fun x => pure [x])
+
+/-- `seq.FlatMap(ma, fn)`: `for v in ma { ret = append(ret, fn(v)...) }` -/
+def seqFlatMap (ma : List A) (fn : A → GoM (List B)) : GoM (List B) := do
+  let mut ret : List B := []
+  for v in ma do
+    ret := ret ++ (← fn v)
+  pure ret
+
+def mapSeqT (t : GoM (Try (List A))) (f : A → GoM B) : GoM (Try (List B)) :=
+  map TryM.ops t (fun ma => seqFlatMap ma (fun a => do let b ← f a; pure [b]))
+
+def subFlatMapSeqT (t : GoM (Try (List A))) (f : A → GoM (List B)) : GoM (Try (List B)) :=
+  map TryM.ops t (fun ma => seqFlatMap ma f)
+
+/-- the directive's `Sequence` for SeqT: `Map(Sequence(v), as.Seq)` with the package's `Sequence` -/
+def sequenceSeqT (v : List (Try B)) : GoM (Try (List B)) :=
+  map TryM.ops (sequence TryM.ops TryM.foldM (v.map (fun t => (pure t : GoM (Try B))))) (fun l => pure l)
+
+/-- `TraverseSeqT(t, f) = FlatMap(MapSeqT(t, f), sequencef)`: NOTE that `MapSeqT` applies `f` to EVERY element
+    before `Sequence` looks for the first failure. -/
+def traverseSeqT (t : GoM (Try (List A))) (f : A → GoM (Try B)) : GoM (Try (List B)) :=
+  TryM.ops.flatMap (mapSeqT t f) sequenceSeqT
+
+def flatMapSeqT (t : GoM (Try (List A))) (f : A → GoM (Try (List B))) : GoM (Try (List B)) :=
+  map TryM.ops (traverseSeqT t f) (fun v => seqFlatMap v (fun x => pure x))
+
+end TryT
+
 -- ------------------------------------------------------------------------------------------ StateT
 namespace StM
 /-- `statet`'s `FlatMap`/`Pure` in the family's signature: a callback `func(A) StateT[S,B]` whose own
